@@ -67,7 +67,9 @@ CLAIM = dict(
          'whose exact exponent gap floor(log2|Y1-Y2|^2) - floor(log2|Y2|^2) is 998..1003, i.e. exactly at and one half-step around '
          'the documented +-500, where the search demands the saturation value iff the gap exceeds 1000 and the true distance '
          'otherwise - sharp whenever neither squared norm is within 2^-30 of a power of two); truncate over all four combinations '
-         'use_stab x is_eigh on graded tensors (singular values 1, c1 just above e, c2 just below the per-step threshold) at per-core '
+         'use_stab x is_eigh on graded tensors (singular values 1, c1 just above e, c2 just below the per-step threshold), on flat '
+         'clusters (k equal singular values just below the per-step threshold whose joint weight exceeds it) and on sums T + T whose '
+         'sweep unfoldings are square and genuinely reduced, at per-core '
          'scales 2^0 / 2^+-300 / 2^+-400: error <= e by exact distance, ranks equal to the unstabilised call at scale 1 (the sweep '
          'itself is the object of C02 and is not modelled here; the truncate_stab stream adds these tensors and the rank comparison). '
          'KEPT OUT (not covered by the property text, which '
@@ -453,6 +455,64 @@ def gen_graded(rng, d, n, e, c1f, c2f):
             for i in range(3):
                 A[i, :, i] = Q[:, i]
         Y.append(Core(A.shape[0], n, A.shape[2], arr=A))
+    return Y
+
+
+def gen_flat(rng, d, e, k, cf, nmid=2):
+    """Y = T0 + c (T1 + ... + Tk): mutually orthogonal unit-norm rank-1 tensors (orthonormal factors in the first and the last
+    mode, sizes k+1; unit vectors elsewhere), so every unfolding has the singular values 1, c x k: a FLAT cluster with
+    c = cf * e / sqrt(d-1) just below the per-step threshold whose joint weight sqrt(k) c is above it (the tail criterion is
+    cumulative: only floor(1/cf^2) of them may go per bond).  TT-ranks k+1."""
+    c = cf * e / math.sqrt(max(d - 1, 1))
+    coef = [1.0] + [c] * k
+    K = k + 1
+    Y = []
+    for j in range(d):
+        if j in (0, d - 1):
+            n = K
+            Q, _ = np.linalg.qr(np.array([[rng.gauss(0, 1) for _ in range(K)] for _ in range(n)]))
+        else:
+            n = nmid
+            Q = np.array([[rng.gauss(0, 1) for _ in range(K)] for _ in range(n)])
+            Q = Q / np.sqrt(np.sum(Q * Q, axis=0))
+        if j == 0:
+            A = np.zeros((1, n, K))
+            for i in range(K):
+                A[0, :, i] = coef[i] * Q[:, i]
+        elif j == d - 1:
+            A = np.zeros((K, n, 1))
+            for i in range(K):
+                A[i, :, 0] = Q[:, i]
+        else:
+            A = np.zeros((K, n, K))
+            for i in range(K):
+                A[i, :, i] = Q[:, i]
+        Y.append(Core(A.shape[0], n, A.shape[2], arr=A))
+    return Y
+
+
+def gen_square(rng, d, r, mode='unit'):
+    """Y = T + T in block form (ranks 2r) for a generic rank-r tensor T with mode size 2 inside and 2r at both ends: during
+    the rounding sweep every unfolding r1 x (n r2) is SQUARE (2r x 2r) and genuinely reduced (rank r)."""
+    T = []
+    for j in range(d):
+        r1, r2 = (1 if j == 0 else r), (1 if j == d - 1 else r)
+        n = 2 * r if j in (0, d - 1) else 2
+        sc = scale_of(rng, mode)
+        T.append(np.array([rng.uniform(-1, 1) for _ in range(r1 * n * r2)]).reshape(r1, n, r2) * 2.0 ** sc)
+    Y = []
+    for j, G in enumerate(T):
+        r1, n, r2 = G.shape
+        if d == 1:
+            M = 2 * G
+        elif j == 0:
+            M = np.concatenate([G, G], axis=2)
+        elif j == d - 1:
+            M = np.concatenate([G, G], axis=0)
+        else:
+            M = np.zeros((2 * r1, n, 2 * r2))
+            M[:r1, :, :r2], M[r1:, :, r2:] = G, G
+        Y.append(Core(M.shape[0], n, M.shape[2], arr=M))
     return Y
 
 
@@ -1255,13 +1315,21 @@ def corr_truncate(R, tn, rng, th):
     # must be those of the unstabilised default call at scale 1 (the sweep sees the same mantissas: C16_truncate_stab)
     plan += [(d, ('graded', k), rng.choice([1e-2, 1e-3]), ie) for d, k in [(2, 0), (2, 400), (3, -400), (4, 300), (6, -300)]
              for ie in (True, False)]
+    # flat clusters below the per-step threshold and square, genuinely reduced unfoldings (gen_flat / gen_square)
+    plan += [(d, (fam, k), 1e-3, ie) for d, fam, k in [(2, 'flat', 0), (3, 'flat', 400), (3, 'square', 0), (5, 'square', -300)]
+             for ie in (True, False)]
     ditems, fterms, meta = [], [], []
     dist = dict(d=[], eigh=0, skeleton=0, p_range=[0, 0], rank_reduced=0, log2_ulp_skipped=0, root_worst=0.0)
     bad = []
     for d, mode, e, is_eigh in plan:
         want_ranks = None
         if isinstance(mode, tuple):
-            Y0 = gen_graded(rng, d, rng.choice([3, 5, 8]), e, rng.choice([1.2, 1.5, 2.0]), rng.choice([0.3, 0.6]))
+            if mode[0] == 'flat':
+                Y0 = gen_flat(rng, d, e, rng.choice([3, 5, 8]), rng.choice([0.75, 0.9]))
+            elif mode[0] == 'square':
+                Y0 = gen_square(rng, d, rng.choice([1, 2]))
+            else:
+                Y0 = gen_graded(rng, d, rng.choice([3, 5, 8]), e, rng.choice([1.2, 1.5, 2.0]), rng.choice([0.3, 0.6]))
             Y = scaled(Y0, [mode[1]] * d)
             with np.errstate(all='ignore'):
                 want_ranks = [G.shape[2] for G in tn.truncate(tt_np(Y0), e)]
@@ -1286,7 +1354,7 @@ def corr_truncate(R, tn, rng, th):
                             why=err or ('non-finite cores' if len(rec.orth_out) == 1 else
                                         f'truncate(use_stab=True) called orthogonalize(.., True) {len(rec.orth_out)} times')))
             continue
-        if want_ranks is not None and [G.shape[2] for G in W] != want_ranks:
+        if want_ranks is not None and mode[0] != 'flat' and [G.shape[2] for G in W] != want_ranks:
             bad.append(dict(stream='truncate_stab', input=inp, why=f'ranks {[G.shape[2] for G in W]} of truncate(use_stab=True, '
                             f'is_eigh={is_eigh}) differ from the ranks {want_ranks} of the unstabilised call at scale 1'))
         Zs, p = rec.orth_out[0]
@@ -2024,11 +2092,14 @@ def chk_truncate4(tn, inp):
     rescalings of the cores (shift lists).  Every result: finite, within e of the (rescaled) tensor by exact big-integer
     distance, ranks equal to those of the unstabilised default call at scale 1."""
     Y, e, shifts = tts(inp[0]), float(inp[1]), inp[2]
-    ok, W0 = call(tn.truncate, tt_np(Y), e)
+    # options: compare the ranks (not for flat clusters: which of several equal singular values goes is a tie, +-1 per bond);
+    # run the unstabilised calls (only where the plain computation is representable: the tensor is at scale 1)
+    chk_ranks, plain = (bool(inp[3][0]), bool(inp[3][1])) if len(inp) > 3 else (True, True)
+    ok, W0 = call(tn.truncate, tt_np(Y), e, use_stab=not plain)
     if not ok or not shapes_ok(W0, Y):
         return F('truncate(Y, e) raised or returned malformed cores', repr(W0)[:80])
     ranks = [G.shape[2] for G in W0]
-    runs = [(None, us, ie) for us in (False, True) for ie in (True, False)]
+    runs = [(None, us, ie) for us in ((False, True) if plain else (True,)) for ie in (True, False)]
     runs += [(sh, True, ie) for sh in shifts for ie in (True, False)]
     for sh, us, ie in runs:
         Ys = Y if sh is None else scaled(Y, sh)
@@ -2042,7 +2113,7 @@ def chk_truncate4(tn, inp):
         if rel is None or not rel <= e * (1 + 1e-6) + 2e-7:
             return F(tag + ': the result is farther from Y than the requested accuracy', rel, e,
                      ranks=[G.shape[2] for G in W], ranks_expected=ranks)
-        if [G.shape[2] for G in W] != ranks:
+        if chk_ranks and [G.shape[2] for G in W] != ranks:
             return F(tag + ': ranks differ from those of the unstabilised default call at scale 1', [G.shape[2] for G in W], ranks)
     return None
 
@@ -2314,6 +2385,23 @@ def search_jobs(rng, th, deep):
         Y = gen_graded(rng, d, rng.choice([3, 5, 8, 9]), e, rng.choice([1.2, 1.5, 2.0]), rng.choice([0.3, 0.6]))
         shifts = [[k] * d for k in rng.sample([300, -300, 400, -400], 2)] + [[rng.choice([-400, -300, 0, 300, 400]) for _ in range(d)]]
         J.append(('truncate4', [tt_desc(Y), e, shifts]))
+    # flat clusters just below the per-step threshold (cumulative tail criterion), d = 2, 3 and a longer chain with large end modes
+    for d, k in ([(2, 2), (2, 5), (3, 3), (3, 8), (6, 12)] if not (deep or th) else
+                 [(2, 2), (2, 3), (2, 5), (2, 12), (3, 3), (3, 4), (3, 8), (4, 6), (6, 12), (8, 12)]):
+        e = rng.choice([1e-2, 1e-3, 1e-4])
+        Y = gen_flat(rng, d, e, k, rng.choice([0.6, 0.75, 0.9, 0.95]))
+        shifts = [[kk] * d for kk in rng.sample([300, -300, 400, -400], 1)] + [[rng.choice([-400, -300, 0, 300, 400]) for _ in range(d)]]
+        J.append(('truncate4', [tt_desc(Y), e, shifts, [False, True]]))
+    # square unfoldings that are genuinely reduced (Y = T + T, every sweep step sees a 2r x 2r matrix of rank r)
+    for d, r in ([(2, 1), (2, 2), (3, 2), (5, 3), (30, 2)] if not (deep or th) else
+                 [(2, 1), (2, 2), (2, 3), (3, 1), (3, 2), (4, 3), (7, 2), (30, 2), (dbig // 2, 2)]):
+        if d <= 30:
+            Y = gen_square(rng, d, r, 'unit')       # scale 1: the unstabilised calls are representable
+            shifts = [[kk] * d for kk in rng.sample([300, -300, 400, -400], 1)]
+            J.append(('truncate4', [tt_desc(Y), rng.choice([1e-6, 1e-3]), shifts, [True, True]]))
+        else:
+            Y = gen_square(rng, d, r, rng.choice(['up', 'down']))      # norm far outside the double range: stabilised calls only
+            J.append(('truncate4', [tt_desc(Y), 1e-6, [], [True, False]]))
     J.append(('truncate', [tt_desc(gen_float(rng, 5, 'mixed', rmax=3)), 1e-8, 1, True]))
     J.append(('truncate', [tt_desc(with_zero_core(gen_float(rng, 4, 'mixed'), 2)), 1e-3, None, True]))
     return J
